@@ -62,12 +62,15 @@ Theorem C01t_checked_once : forall e st, verified st = true -> tls_verify e st =
 Proof. exact checked_once. Qed.
 Print Assumptions C01t_checked_once.
 
-(** for every sequence of calls of tls_verify() / is_authenticated() (several RCPT TO in a row) and every oracle:
+(** for every sequence of events on a connection - calls of tls_verify() / is_authenticated() (several RCPT TO in a row)
+    and ends of transactions (OpFree: what freedata() does, i.e. RSET, HELO/EHLO, DATA, a new MAIL FROM) - and every oracle:
     once ssl_verified is set - after the first check, whatever it gave, in particular an error or "no" - no later call
-    runs the check again and none changes xmitstat.tlsclient: a negative first result is not retried into a positive one *)
+    runs the check again and none gives xmitstat.tlsclient a name it did not have: a negative first result is not
+    retried into a positive one *)
 Theorem C01t_no_retry : forall cs st,
   verified st = true ->
-  Forall (fun res => verified (snd (fst res)) = true /\ tlsclient (snd (fst res)) = tlsclient st /\ ~ In LL (snd res)) (run cs st).
+  Forall (fun res => verified (snd (fst res)) = true /\
+                     (forall n, tlsclient (snd (fst res)) = Some n -> tlsclient st = Some n) /\ ~ In LL (snd res)) (run cs st).
 Proof. exact no_retry. Qed.
 Print Assumptions C01t_no_retry.
 
@@ -147,3 +150,11 @@ Example C01t_nonvacuous_negative :
          (run [(OpIsAuth, {| e_tls := true; e_auth := false; e_ipbl := 0; e_list := LErr 13; e_ca := true; e_sid := 1; e_hs := 0;
                              e_verify := 0; e_peer := None; e_dup := true; e_netw := 0 |})] st_init) = [(Ret (-13), 2)].
 Proof. vm_compute. repeat split; reflexivity. Qed.
+
+(** the end of the transaction forgets the name (freedata) but not the entitlement: relayclient stays 1, the next
+    RCPT TO is answered from it without consulting anything *)
+Example C01t_nonvacuous_transactions :
+  map (fun res => (fst (fst res), relay (snd (fst res)), tlsclient (snd (fst res)), snd res))
+      (run [(OpIsAuth, ex_env [(1, [97; 64; 98; 46; 99])]%N); (OpFree, ex_env []); (OpIsAuth, ex_env [])] st_init)
+  = [(Ret 1, 1, Some [97; 64; 98; 46; 99]%N, [LB; LL; LA; LI; LH; LV; LP; LD]); (Ret 0, 1, None, []); (Ret 1, 1, None, [])].
+Proof. vm_compute. reflexivity. Qed.
